@@ -83,5 +83,5 @@ def run(ctx, scenarios, tag="sys"):
     if not jiva:
         raise RuntimeError("jiva does not build:\n" + log[-3000:])
     cases = [dict(id=i, rf=s["rf"], steps=s["steps"]) for i, s in enumerate(scenarios)]
-    outs = vlib.run_harness(ctx, binpath, cases, extra_args=[jiva], netns=True, tag=tag, workers=max(1, len(cases)), timeout=900)
+    outs = vlib.run_harness(ctx, binpath, cases, extra_args=[jiva], netns=True, tag=tag, workers=max(1, min(8, len(cases))), timeout=2400)
     return [outs[c["id"]] for c in cases]
